@@ -2,6 +2,13 @@
 PENDING_REASON = "static rules designed in DESIGN.md §3 but the check is not registered yet (under construction)"
 
 CLAIMS = {
+    "C19": {
+        "technique": "static analysis: guard facts and atom provenance of the reflect call, must-pass of the result reset on every runner path, dominance of the ops-cap return over index.add, def-use shape of the stored summary, effect/attribute whitelist of the id helpers, ordering and no-later-store checks in run_turn, final-stash and fail-soft enclosure checks",
+        "text": "Decides: reflect() is reachable only with dry-run off, t3.allow_reflection true and the plan's reflection flag; every runner path (re)sets ctx._reflection_result and run_turn reads it only after this turn's runner call; "
+                "the writer returns before index.add when ops_cap<=0, truncates to ops_cap and iterates the truncated list, backends emit at most one entry; the stored text is _truncate_tokens(normalised text, summary_tokens); ids and timestamps read "
+                "only agent_id/turn_id/slot/text/now_ms/now_iso; reflection runs after the apply record and nothing afterwards writes utter/plan/t1/t2/t4/apply; error and timeout results carry no entries, the stashed result is the final one, all three blocks are fail-soft.",
+        "note": "Not decided: byte equality of the turn's T1/T2/T4/apply records and utterance with a reflection-off run (execution equality); behaviour of arbitrary fixture contents; the wall-clock timeout itself is time-dependent by design (see C01).",
+    },
     "C12": {
         "technique": "static analysis: effect analysis with the store receiver resolved through a class hint, guard-fact/dominance checks of the budget tests over the accumulation, must-pass pairing of work and counters, factor provenance of the contribution, seeding/ordering shape, free-variable-vs-cache-key slice containment",
         "text": "Decides on t1.py and graph/store.py: propagation performs no mutating operation on the store, its graphs or the state (and the store's read API creates nothing); the work loop is bounded by the pop counter "
